@@ -161,12 +161,13 @@ def compare_pools(before, after, where, viol, spec=None, to_int=None,
     # callbacks while the process pool empties, then _shutdown() queues a
     # second write; both are executed as one batch (all deletes, then all
     # inserts), so a row of the first write whose primary key (cycle, name,
-    # flow_nums) is not in the second one survives: a task removed, or
-    # merged into another flow, by one of those callbacks.
+    # flow_nums) is not in the second one survives: a task merged into
+    # another flow by one of those callbacks.  (A task removed by one is
+    # safe: TaskPool.remove() flushes the queue first.)
     stale = set()
     if drain_start is not None:
         for ident, flows in drain_start.items():
-            if ident not in nb or nb[ident]['flows'] != sorted(flows):
+            if ident in nb and nb[ident]['flows'] != sorted(flows):
                 stale.add(ident)
     for ident in sorted(set(nb) - set(na)):
         viol.append(Violation(
@@ -175,8 +176,6 @@ def compare_pools(before, after, where, viol, spec=None, to_int=None,
             f'but not after the restart'))
     for ident in sorted(set(na) - set(nb)):
         viol.append(Violation(
-            'C19:stale-task-pool-row:task-removed-or-flows-merged-during-'
-            'shutdown-pool-drain' if ident in stale else
             'C19:pool-task-extra-after-restart',
             f'{where}: {ident} ({na[ident]}) is in the pool after the '
             f'restart but was not at shutdown'))
@@ -190,8 +189,8 @@ def compare_pools(before, after, where, viol, spec=None, to_int=None,
             if b[fld] != a[fld]:
                 sig = f'C19:task-{fld}-differs'
                 if ident in stale:
-                    sig = ('C19:stale-task-pool-row:task-removed-or-flows-'
-                           'merged-during-shutdown-pool-drain')
+                    sig = ('C19:stale-task-pool-row:flows-merged-during-'
+                           'shutdown-pool-drain')
                 elif (fld == 'outputs' and not a['outputs']
                         and b['status'] == a['status']
                         and a['status'] in OUTPUTS_RELOADED_FOR
@@ -224,8 +223,8 @@ def compare_pools(before, after, where, viol, spec=None, to_int=None,
                         and set(a['outputs']) < set(b['outputs'])):
                     name = ident.split('/', 1)[1]
                     cust = (spec or {}).get('custom', {}).get(name, {})
-                    lost = set(b['outputs']) - set(a['outputs'])
-                    if all(o in cust and cust[o] != o for o in lost):
+                    gone = set(b['outputs']) - set(a['outputs'])
+                    if all(o in cust and cust[o] != o for o in gone):
                         # one root cause: the reload iterates the stored
                         # {trigger: message} dict (= trigger labels) and
                         # passes them to set_message_complete()
